@@ -7,6 +7,7 @@
 #include <romea_core_common/diagnostic/CheckupGreaterThan.hpp>
 #include <romea_core_common/diagnostic/CheckupLowerThan.hpp>
 #include <romea_core_common/diagnostic/CheckupReliability.hpp>
+#include <romea_core_common/geodesy/WGS84Coordinates.hpp>
 #include "vrun.hpp"
 #include <set>
 
@@ -65,6 +66,7 @@ template <class T> std::vector<T> values_around(T target, T eps) {
     } else { s.insert(b + 1); s.insert(b - 1); }
   }
   for (T f : {(T)0, (T)1000000, (T)-1000000, (T)3}) s.insert(f);
+  if constexpr (std::is_floating_point<T>::value) { s.insert((T)1.23456789); s.insert((T)0.899999999); s.insert((T)-123456.789); }   // more significant digits than the default stream precision
   return std::vector<T>(s.begin(), s.end());
 }
 
@@ -178,7 +180,7 @@ void plus_equals(vf::Ctx& c) {
 struct MState { DiagnosticStatus st = DiagnosticStatus::STALE; std::string msg, info; };
 void sequences(vf::Ctx& c, int kind, double target, double eps, int depth) {
   std::string name = "spd";
-  std::vector<double> vals = {target, target - eps - 0.5, target + eps + 0.5, target - eps, target + eps, 0.0, -0.0};   // +0.0 / -0.0 compare equal and print differently
+  std::vector<double> vals = {target, target - eps - 0.5, target + eps + 0.5, target - eps, target + eps, 0.0, -0.0, 1.23456789};   // +0.0 / -0.0 compare equal and print differently
   int nops = (int)vals.size() + (kind < 3 ? 1 : 0);   // reliability check-up has no timeout()
   std::set<std::string> states;
   uint64_t total = 1; for (int i = 0; i < depth; ++i) total *= nops;
@@ -241,6 +243,9 @@ uint64_t vf_ncases(const std::string& tier) { return cases(tier == "thorough").s
 
 void vf_run(uint64_t idx, const std::string& tier, vf::Ctx& c) {
   bool th = tier == "thorough";
+  {   // the thread first formats another library type through the same info helper (its printer sets the stream precision to 10): formatting state must not leak
+    DiagnosticReport r; setReportInfo(r, "fix", makeWGS84Coordinates(0.799, 0.0538)); c.obs((uint64_t)r.info["fix"].size());
+  }
   const Case& k = cases(th)[idx];
   switch (k.kind) {
     case 0: thresholds<double>(c, "double", k.a, kT[k.b], kE[k.c]); thresholds<float>(c, "float", k.a, (float)kT[k.b], (float)kE[k.c]); break;
@@ -262,7 +267,7 @@ std::string vf_describe(const std::string& tier) {
   o.str("status_algebra", "all 64 triples");
   o.str("lists", th ? "all lists of length 1..10; length-20 lists with <=2 deviations from each constant list" : "all lists of length 1..8 (87380); length-20 lists with <=2 deviations from each constant list");
   o.str("reports", "all pairs and triples from a catalogue of 6 reports (disjoint and colliding info keys, empty lists)");
-  o.i("sequence_depth", th ? 7 : 5).str("sequence_ops", "evaluate(5 values on/around the thresholds, +0.0, -0.0), timeout(); 4 check-up kinds x 6 configurations; every sequence replayed on a fresh object");
+  o.i("sequence_depth", th ? 7 : 5).str("sequence_ops", "evaluate(5 values on/around the thresholds, +0.0, -0.0, 1.23456789), timeout(); before every case the thread formats a WGS84Coordinates value through setReportInfo; 4 check-up kinds x 6 configurations; every sequence replayed on a fresh object");
   return o.done();
 }
 
